@@ -89,7 +89,7 @@ def data_rows_exit(ctx, kind, result):
     times = ctx.local("unique_tick_times")
     nt = ctx.list_len(times)
     old = ctx.fr.entry_heap
-    rd = lambda f, r: z3.Select(old[f] if f in old else st.field(f), r)
+    rd = lambda f, r: z3.Select(old[f] if f in old else z3.Const(f'H0!{f}', __import__('pyvc.smt', fromlist=['field_sort']).field_sort(f)), r)
     pl = ctx.local("plot_log")
     ents = rd("entries", RID(pl.term))
     ne = rd("$dcnt", RID(ents))
@@ -150,7 +150,7 @@ def _witness(ctx, model):
     st = ctx.st
     old = ctx.fr.entry_heap
     ev = lambda e: model.eval(e, model_completion=True)
-    rd = lambda f, r: z3.Select(old[f] if f in old else st.field(f), r)
+    rd = lambda f, r: z3.Select(old[f] if f in old else z3.Const(f'H0!{f}', __import__('pyvc.smt', fromlist=['field_sort']).field_sort(f)), r)
     pl = ctx.fr.lookup("plot_log")
     ents = rd("entries", RID(pl.term))
     ne = ev(rd("$dcnt", RID(ents))).as_long()
